@@ -214,3 +214,18 @@ Proof.
   assert (0 <= Cmod a * Cmod x * Cmod x) by (repeat apply Rmult_le_pos; assumption).
   assert (0 <= Cmod b * Cmod x) by (apply Rmult_le_pos; assumption). lra.
 Qed.
+
+(* non-vacuity: the exact principal square root is an admissible fsqrt, and the arithmetic really rounds *)
+From OV Require Import Proofs.RootsRoundEx.
+Lemma flx_nonvacuous :
+  (forall z : C, exists w : C, (w * w)%C = z /\ Cmod (Csqrt z - w)%C <= eps_flx * Cmod w) /\ RtoC 1 <> RtoC 0 /\
+  flx_scale (RtoC 1) (1 / 3) <> (RtoC 1 * RtoC (1 / 3))%C.
+Proof.
+  destruct eps_flx_bounds as (E0 & _).
+  split; [|split].
+  - intros z. exists (Csqrt z). split; [apply Csqrt_sqr|].
+    replace (Csqrt z - Csqrt z)%C with (RtoC 0) by ring. rewrite Cmod_0. pose proof (Cmod_ge_0 (Csqrt z)). nra.
+  - intros H. apply RtoC_inj in H. lra.
+  - intros H. apply (f_equal fst) in H. cbn in H. apply xdiv_inexact. unfold xdiv.
+    unfold xmul in H. replace (1 / 3) with (1 * (1 / 3)) at 1 by ring. rewrite H. ring.
+Qed.
